@@ -23,7 +23,11 @@
 // drain {none, one of the set, harmless ones outside it (SIGWINCH, SIGURG, SIGCHLD, SIGUSR2 / SIGUSR1 when not
 // configured), several} on rigs a and s, with work that outlasts the deliveries and a long shutdown timeout: a
 // signal outside the set ends nothing (the exchange at the origin completes in full, the tunnel lives on), one of
-// the set ends the drain (Close: everything closed).
+// the set ends the drain (Close: everything closed). A fifth dimension (ctl.go trackConn, scriptCloses, genCtlClose): the
+// listener of the ctl cases (rig b) and of the drains of rig a that end by themselves wraps every accepted connection and
+// scripts how long the proxy's Close of it TAKES {returns at once, 50-400 ms, 650-900 ms} and, below crypto/tls on TLS
+// listeners, a peer that does not take its close_notify (the record waits like a write into a full send buffer); a
+// Shutdown that returns nil is judged at that instant: the Close of every served socket has completed, not merely begun.
 package c11
 
 import (
@@ -98,6 +102,9 @@ type ConnScript struct {
 	PauseMs     int    `json:"pause_ms,omitempty"` // slowread: pause of the reader before each 64 KiB (0 = 2 ms)
 	HoldMs      int    `json:"hold_ms,omitempty"`  // tunnel, dial: echo traffic goes on for this long after closing is known, before After
 	Park        bool   `json:"park,omitempty"`     // origin: the origin keeps the request until the case is over (the exchange never drains)
+	// the proxy's side of this connection's socket (families ctl, runend: the listener wraps what it accepts, ctl.go trackConn)
+	CloseMs int `json:"close_ms,omitempty"` // Close takes this long to return; the socket stays open meanwhile
+	StallMs int `json:"stall_ms,omitempty"` // TLS listener: the peer is not reading when the close_notify is due; the record waits this long (or until crypto/tls's write deadline)
 }
 
 func (c *Case) key() string { b, _ := json.Marshal(c); return string(b) }
